@@ -44,6 +44,16 @@ fn walk(doc: &str, set: &SelectionSet, bad: &mut Vec<String>, n: &mut usize) {
 /// args: {"doc": "..."}
 pub fn pos(args: &Value) -> Outcome {
     let doc = args["doc"].as_str().unwrap();
+    if args["kind"] == "error" {
+        // a syntax error is reported at the offending token: the document has exactly one `!` where none may stand
+        let off = doc.find('!').unwrap();
+        let exp = oracle(doc, off);
+        return match parse_query(doc) {
+            Ok(_) => Outcome { holds: false, observed: "parsed".into(), expected: "syntax error".into() },
+            Err(async_graphql_parser::Error::Syntax { start, .. }) => Outcome { holds: (start.line, start.column) == exp, observed: format!("syntax error reported at {}:{}", start.line, start.column), expected: format!("{}:{}", exp.0, exp.1) },
+            Err(e) => Outcome { holds: false, observed: format!("{}", e), expected: "syntax error".into() },
+        };
+    }
     match parse_query(doc) {
         Err(e) => Outcome { holds: true, observed: format!("parse error (not a position claim): {}", e), expected: "n/a".into() },
         Ok(d) => {
@@ -55,9 +65,18 @@ pub fn pos(args: &Value) -> Outcome {
     }
 }
 
-pub fn pos_inputs(seed: u64) -> impl Iterator<Item = Value> {
+pub fn pos_inputs(seed: u64, open: &[String]) -> impl Iterator<Item = Value> {
+    let skip_cr_errors = open.iter().any(|x| x == "C14-syntax-error-after-lone-cr");
     let seps = ["\n", "\r\n", "\r", " ", "\t", ",", "\u{feff}", "# c\u{e9}\n", "# x\r", "\r\r", "\n\r", "\r\n\r\n", " \u{e9}# \u{1F600}\r\n"];
     let mut out = Vec::new();
+    // ignored tokens BEFORE the first brace (a byte order mark as the very first character included)
+    for a in seps { out.push(json!({"doc": format!("{}{{ f0 f1 }}", a)})); for b in seps { out.push(json!({"doc": format!("{}{}query Q {{{}f0 }}", a, b, a)})); } }
+    // syntax errors: reported at the offending character
+    for a in seps { for b in seps {
+        if a.contains('\u{e9}') && !a.starts_with('#') || b.contains('\u{e9}') && !b.starts_with('#') { continue; }     // not an ignored token
+        if skip_cr_errors && (a.replace("\r\n", "").contains('\r') || b.replace("\r\n", "").contains('\r')) { continue; }
+        out.push(json!({"kind": "error", "doc": format!("{}{{{}f0! }}", a, b)}));
+    } }
     // systematic: every separator before a field, pairs of separators
     for a in seps { out.push(json!({"doc": format!("{{{}f0 }}", a)})); }
     for a in ["\u{1F600}", "\u{10000}", "\u{FFFF}", "\u{800}", "\u{7FF}", "\u{80}"] { out.push(json!({"doc": format!("{{ f0(x: \"{}\") f1 }}", a)})); }
